@@ -423,7 +423,13 @@ struct V : RecursiveASTVisitor<V> {
     if (D->isInvalidDecl()) return true;
     if (D->getDeclContext()->isDependentContext()) return true;
     if (D->getType()->isDependentType()) return true;
-    if (!D->isThisDeclarationADefinition() && !D->isStaticLocal()) return true;
+    // pre-C++17 a static constexpr data member with an in-class initializer is
+    // only a declaration; it is the same object the C++17 configs see as an
+    // inline definition, so keep it
+    bool inclassInit = D->isStaticDataMember() && D->hasInit() &&
+                       D->getType().isConstQualified();
+    if (!D->isThisDeclarationADefinition() && !D->isStaticLocal() && !inclassInit)
+      return true;
     std::string f = ex.file(D->getLocation());
     if (!underRoots(f)) return true;
     std::string key = ex.diagname(D) + "@" + ex.loc(D->getLocation());
